@@ -98,7 +98,7 @@ Definition scheme_ok (s : text) : bool :=
 
 Definition count_char (c : N) (s : text) : nat := length (filter (N.eqb c) s).
 
-(* host [":" port] : IP-literal (approximated: '[' hex digits, ':' and '.' ']') or reg-name *)
+(* host [":" port] : IP-literal (approximated: '[' hex digits, ':' and '.', at least one ':', ']') or reg-name *)
 Definition regname_port_ok (iri : bool) (s : text) : bool :=
   let '(h, rest) := span (nin [58]) s in
   legal (ok_regname iri) h &&
@@ -111,7 +111,7 @@ Definition ipliteral_port_ok (r : text) : bool :=
   let '(inner, rest) := span (nin [93]) r in
   match inner, rest with
   | _ :: _, _ :: after =>                 (* the character the span stopped at is the ']' *)
-    forallb (fun c => hexdig c || memN c [58; 46]) inner &&
+    forallb (fun c => hexdig c || memN c [58; 46]) inner && memN 58 inner &&   (* every IPv6address has a ':' *)
     match after with
     | [] => true
     | c :: p => (c =? 58) && forallb digit p
@@ -280,16 +280,22 @@ Definition reads_ok (t : text) (o : url_obs) : bool :=
 Definition dec_value (ds : text) : Z := fold_left (fun a c => (10 * a + Z.of_N (c - 48))%Z) ds 0%Z.
 Definition hostport_of (au : text) : text := let '(_, at_, h) := partition 64 au in if (at_ : bool) then h else au.
 Definition host_port_texts (hp : text) : text * text :=
+  let plain := let '(h, _, p) := partition 58 hp in (h, p) in
   match hp with
-  | 91 :: r => let '(inner, _, after) := partition 93 r in (inner, match after with 58 :: p => p | _ => [] end)
-  | _ => let '(h, _, p) := partition 58 hp in (h, p)
+  | c :: r => if c =? 91
+              then let '(inner, _, after) := partition 93 r in (inner, match after with 58 :: p => p | _ => [] end)
+              else plain
+  | [] => plain
   end.
 Definition port_reads (t : text) (o : url_obs) : bool :=
   let '(_, au, _, _, _) := rfc_split t in
   let hp := hostport_of (otx au) in
   let '(h, p) := host_port_texts hp in
   option_eqb Z.eqb (uo_port o) (match p with [] => None | _ => Some (dec_value p) end) &&
-  match hp with 91 :: _ => text_eqb (uo_host o) h && (uo_family o =? 6) | _ => true end.
+  match hp with
+  | c :: _ => if c =? 91 then text_eqb (uo_host o) h && (uo_family o =? 6) else true
+  | [] => true
+  end.
 
 (* parse_ok: URL(t) raises nothing but URLParseError; for a well-formed reference t that parses, the components are
    the Spec's reading of t (reads_ok, port_reads) and the rendered texts are fixed points (full quoting when the host is valid,
